@@ -77,7 +77,14 @@ def gen(rng, kind, tier):
             b["radius"] = a["radius"]
         if rng.random() < 0.05:
             b["pos"] = list(a["pos"])
-        return {"a": a, "b": b, "route_a": common.pick_route(rng, 0.6), "route_b": common.pick_route(rng, 0.6)}
+        case = {"a": a, "b": b, "route_a": common.pick_route(rng, 0.6), "route_b": common.pick_route(rng, 0.6)}
+        if kind == "pair" and rng.random() < 0.05:
+            # a spherical droplet absorbs a diffuse one: the second operand is an instance of the first one's class
+            # (a diffuse droplet *is* a spherical droplet with one more parameter), so volume and centre are defined
+            case["a"] = dict(a, cls="SphericalDroplet", width=None)
+            case["b"] = dict(b, cls="DiffuseDroplet", width=float(10 ** rng.uniform(-2, 1)))
+            case["subclass_operand"] = True
+        return case
     n = int(rng.integers(3, 9))
     ds = [_drop(rng, dim, cls) for _ in range(n)]
     return {"droplets": ds, "order_seed": int(rng.integers(1 << 30))}
@@ -129,6 +136,17 @@ def judge_pair(case, rec, compiled=None):
         else:
             rec.check(abs(wm - (wa + wb) / 2) <= 1e-15 * max(wa, wb, 1e-300) * 4, "width-mean",
                       f"merged width {wm} != mean of {wa}, {wb}; {label}")
+    if case.get("subclass_operand"):
+        a2, b2 = _mk(case["a"], ra_), _mk(case["b"], rb_)
+        c3 = common.monitored(rec, "merge(inplace)", a2.merge, b2, inplace=True)
+        if rec.check(c3.ok, "no-exception", f"in-place merge raised {c3.exc!r}; {label}"):
+            p3, r3, _w3 = _state(a2)
+            rec.check(close(p3, pm, scale) and close(r3, rm, max(rm, 1e-300)), "paths-agree",
+                      f"in-place ({p3.tolist()},{r3}) != out-of-place ({pm.tolist()},{rm}); {label}")
+            rec.check(common.droplet_bytes(b2) == bb, "operands-unchanged", f"in-place merge modified the other operand; {label}")
+        rec.count("spherical_droplet_absorbing_a_diffuse_one")
+        rec.evaluated(nontrivial=(Va != Vb) and bool(np.any(pa != pb)))
+        return
     # commutative
     m2 = common.monitored(rec, "merge", b.merge, a)
     if rec.check(m2.ok, "no-exception", f"b.merge(a) raised {m2.exc!r}; {label}"):
